@@ -12,7 +12,9 @@
 //	(d) of the store restarted once more with the other cache size class,
 //
 // through frac.DataProvider (and a third of the search probes also through the real Searcher, one
-// fetch list through GrpcV1.Fetch).  After sealing, the .index file is read back with the real
+// fetch list through GrpcV1.Fetch).  Aggregation probes name a group-by field (g | k | u | x) and a
+// function (count | unique | num = the numeric samples of the u values); the specification's answer
+// names the groups by index (runs <<a, b, count>>), the driver only renders the index as the token.  After sealing, the .index file is read back with the real
 // disk.IndexReader / lids.Loader / token.TableLoader and compared with the predicted layout.
 //
 // stdin : one JSON case per line; stdout: one JSON line per disagreement, then {"summary":...}.
@@ -113,13 +115,17 @@ type Probe struct {
 	Wt    bool     `json:"wt"`
 	Iv    int      `json:"iv"`
 	Ids   [][2]int `json:"ids"`
+	By    string   `json:"by"` // aggregation: group by field g | k | u | x ("" = one group)
+	Fn    string   `json:"fn"` // aggregation: count | unique | num (numeric value of the u token)
 }
 
 type Exp struct {
 	Ids   [][2]int `json:"ids"`
 	Total int      `json:"total"`
 	Hist  [][2]int `json:"hist"`
-	Agg   [][2]int `json:"agg"`
+	Agg   [][3]int `json:"agg"` // runs: each of the group names a..b has c documents
+	Ne    int      `json:"ne"`  // documents of the answer without a token of the group-by field
+	Num   [][6]int `json:"num"` // group, count, min, max, sum, documents of the group without a u token
 	Docs  []int    `json:"docs"`
 }
 
@@ -145,6 +151,7 @@ var (
 	progress = flag.Bool("progress", false, "serial, with begin/end markers (crash attribution)")
 	formsF   = flag.String("forms", "active,sealed,sealed2,reloaded,recached", "forms to probe")
 	maxRep   = flag.Int("maxreports", 12, "disagreements reported per case")
+	slowMs   = flag.Int("slow", 0, "log probes slower than this many ms to stderr (tuning aid)")
 	outMu    sync.Mutex
 	evals    atomic.Int64
 	nontriv  atomic.Int64
@@ -332,9 +339,111 @@ func (c *corpus) params(p *Probe) processor.SearchParams {
 	case "a":
 		sp.WithTotal = true
 		sp.Limit = 0
-		sp.AggQ = env.AggQueries([]env.Agg{{Func: "count", GroupBy: "g"}})
+		sp.AggQ = env.AggQueries([]env.Agg{aggOf(p)})
 	}
 	return sp
+}
+
+// aggOf: the aggregation request of an "a" probe, as storeapi builds it (group-by / field literal `<field>:*`)
+func aggOf(p *Probe) env.Agg {
+	switch p.Fn {
+	case "unique":
+		return env.Agg{Func: "unique", GroupBy: p.By}
+	case "num": // min / max / sum / avg are one aggregator; the samples are compared, not one function of them
+		fn := "sum"
+		if p.F%2 == 1 {
+			fn = "min"
+		}
+		return env.Agg{Func: fn, Field: "u", GroupBy: p.By}
+	}
+	return env.Agg{Func: "count", GroupBy: p.By}
+}
+
+// groupName: the token the specification's group index stands for
+func (c *corpus) groupName(by string, v int) string {
+	switch by {
+	case "g":
+		return strconv.Itoa(v)
+	case "k":
+		return kName(v, c.s.K[v-1].Sz)
+	case "u":
+		return c.uName(v)
+	case "x":
+		return "1"
+	}
+	return ""
+}
+
+func (c *corpus) compareAgg(p *Probe, x *Exp, q *seq.QPR) string {
+	if len(q.Aggs) != 1 {
+		return fmt.Sprintf("aggs: got %d results", len(q.Aggs))
+	}
+	if p.Fn == "num" {
+		samples := q.Aggs[0].SamplesByBin
+		seen := 0
+		for _, row := range x.Num {
+			name := c.groupName(p.By, row[0])
+			var h *seq.SamplesContainer
+			for bin, sc := range samples {
+				if bin.Token == name {
+					if h != nil {
+						return fmt.Sprintf("agg num[%s=%q]: two bins", p.By, name)
+					}
+					h = sc
+				}
+			}
+			if h == nil {
+				return fmt.Sprintf("agg num[%s=%q]: group missing, expected count %d min %d max %d sum %d not-exists %d", p.By, name, row[1], row[2], row[3], row[4], row[5])
+			}
+			seen++
+			if h.Total != int64(row[1]) || h.NotExists != int64(row[5]) {
+				return fmt.Sprintf("agg num[%s=%q]: got count %d not-exists %d expected %d / %d", p.By, name, h.Total, h.NotExists, row[1], row[5])
+			}
+			if row[1] > 0 && (h.Min != float64(row[2]) || h.Max != float64(row[3]) || h.Sum != float64(row[4])) {
+				return fmt.Sprintf("agg num[%s=%q]: got min %v max %v sum %v expected %d %d %d", p.By, name, h.Min, h.Max, h.Sum, row[2], row[3], row[4])
+			}
+		}
+		if seen != len(samples) {
+			return fmt.Sprintf("agg num: got %d groups expected %d", len(samples), len(x.Num))
+		}
+		return ""
+	}
+	res := q.Aggs[0].Aggregate(env.AggArgs(aggOf(p)))
+	got := make(map[string]int64, len(res.Buckets))
+	ne := res.NotExists
+	for _, b := range res.Buckets {
+		if b.Name == "_not_exists" { // the count aggregator's legacy bucket for documents without the field
+			if int64(b.Value) != res.NotExists {
+				return fmt.Sprintf("agg: _not_exists bucket %v but NotExists %d", b.Value, res.NotExists)
+			}
+			continue
+		}
+		if _, dup := got[b.Name]; dup {
+			return fmt.Sprintf("agg[%s=%q]: two buckets", p.By, trunc([]byte(b.Name)))
+		}
+		got[b.Name] = int64(b.Value)
+	}
+	if ne != int64(x.Ne) {
+		return fmt.Sprintf("agg: %d documents without %s, expected %d", ne, p.By, x.Ne)
+	}
+	want := 0
+	for _, run := range x.Agg {
+		for v := run[0]; v <= run[1]; v++ {
+			want++
+			name := c.groupName(p.By, v)
+			g, ok := got[name]
+			if !ok {
+				return fmt.Sprintf("agg[%s=%q]: bucket missing (expected %d documents); got %d buckets", p.By, trunc([]byte(name)), run[2], len(got))
+			}
+			if p.Fn == "count" && g != int64(run[2]) {
+				return fmt.Sprintf("agg[%s=%q]: got %d expected %d", p.By, trunc([]byte(name)), g, run[2])
+			}
+		}
+	}
+	if want != len(got) {
+		return fmt.Sprintf("agg: got %d buckets expected %d", len(got), want)
+	}
+	return ""
 }
 
 // compareQPR returns "" when the answer equals the expectation of the specification
@@ -380,28 +489,7 @@ func (c *corpus) compareQPR(p *Probe, x *Exp, q *seq.QPR) string {
 		}
 	}
 	if p.T == "a" {
-		if len(q.Aggs) != 1 {
-			return fmt.Sprintf("aggs: got %d results", len(q.Aggs))
-		}
-		res := q.Aggs[0].Aggregate(env.AggArgs(env.Agg{Func: "count", GroupBy: "g"}))
-		got := map[string]int64{}
-		for _, b := range res.Buckets {
-			if b.Name == "_not_exists" {
-				if b.Value != 0 {
-					return fmt.Sprintf("agg: %v documents without g", b.Value)
-				}
-				continue
-			}
-			got[b.Name] = int64(b.Value)
-		}
-		if len(got) != len(x.Agg) {
-			return fmt.Sprintf("agg: got buckets %v expected %v", got, x.Agg)
-		}
-		for _, b := range x.Agg {
-			if got[strconv.Itoa(b[0])] != int64(b[1]) {
-				return fmt.Sprintf("agg[g=%d]: got %d expected %d", b[0], got[strconv.Itoa(b[0])], b[1])
-			}
-		}
+		return c.compareAgg(p, x, q)
 	}
 	return ""
 }
@@ -520,6 +608,7 @@ func (r *runner) probe(form string, fracOnly bool) {
 		if pe.Exp.Total > 0 || len(pe.Exp.Ids) > 0 {
 			nontriv.Add(1)
 		}
+		t0 := time.Now()
 		what := safely(func() string {
 			q, err := env.FracSearch(f, r.cp.params(p))
 			if err != nil {
@@ -527,6 +616,9 @@ func (r *runner) probe(form string, fracOnly bool) {
 			}
 			return r.cp.compareQPR(p, &pe.Exp, q)
 		})
+		if d := time.Since(t0); *slowMs > 0 && d > time.Duration(*slowMs)*time.Millisecond {
+			fmt.Fprintf(os.Stderr, "SLOW shape %d form %s probe %d %v: %s\n", r.c.I, form, pi, d, trunc2(pe.P, 200))
+		}
 		evals.Add(1)
 		if what != "" {
 			r.report(form, "dataprovider", pi, what, pe.P, pe.Exp)
@@ -545,6 +637,13 @@ func (r *runner) probe(form string, fracOnly bool) {
 			}
 		}
 	}
+}
+
+func trunc2(b []byte, n int) string {
+	if len(b) > n {
+		return string(b[:n]) + "..."
+	}
+	return string(b)
 }
 
 func trunc(b []byte) string {
